@@ -447,6 +447,7 @@ def _idlist(name):
         return [("point-%s-" % s + "0123456789abcdefghijklmnopqrstuvwxyz_ABCDEFGH")[:40] for s in "ABCPQ"]
     if name == "blank":     # inner single blanks and no-break spaces (U+00A0 = C2 A0)
         return ["pt A", "pt B", "pt\u00a0C", "P 1 x", "Q\u00a01"]
+    if name in NUMERIC_IDS: return NUMERIC_IDS[name]
     # u2-j / u3-j, j = 0..15: 2- resp. 3-byte UTF-8 characters whose continuation bytes are 0x80+4j .. 0x80+4j+3;
     # the 16 maps of a family contain every continuation byte value 0x80..0xBF (u3: in the 2nd and in the 3rd
     # position); ids 0/1 (u3: also 1/2) differ only in one continuation byte; ids 0-3 contain an inner blank
@@ -461,7 +462,24 @@ def _idlist(name):
     raise KeyError(name)
 
 
-IDMAP_NAMES = ["rev", "utf8", "long", "blank"] + ["u2-%d" % j for j in range(16)] + ["u3-%d" % j for j in range(16)]
+# numeric-looking identifiers.  pointid.cpp: an id is numeric (ordered by value, before all other ids) only if it is
+# the canonical decimal form of a positive long; everything else ("007", "+5", "-5", "0", ids above LONG_MAX, "12a")
+# is an ordinary string id; two ids are equal only if value AND string agree, so all ids below are distinct points.
+NUMERIC_IDS = {
+    "n1":  ["1", "2", "7", "8", "9"],
+    "n9":  ["123456781", "123456782", "123456783", "999999999", "100000000"],
+    "n10": ["2147483646", "2147483647", "2147483648", "4294967295", "4294967296"],                  # around 2^31, 2^32
+    "n18": ["123456789012345671", "123456789012345672", "123456789012345673", "999999999999999999", "100000000000000000"],
+    "n19": ["9223372036854775806", "9223372036854775807", "9223372036854775808", "9223372036854775809", "1000000000000000000"],   # around 2^63-1
+    "n20": ["18446744073709551614", "18446744073709551615", "18446744073709551616", "20260101123045000017", "20260101123045000018"],  # around 2^64-1, timestamp+serial
+    "n25": ["1234567890123456789012341", "1234567890123456789012342", "1234567890123456789012343",
+            "9999999999999999999999999", "1000000000000000000000000"],
+    "nz":  ["007", "7", "07", "0", "00"],              # leading zeros: strings, distinct from 7
+    "ns":  ["-5", "+5", "5", "12a", "12"],             # signed-looking and mixed
+    "nm":  ["9", "10", "9a", "010", "1e1"],            # numeric order 9 < 10 versus string order, mixed with strings
+}
+
+IDMAP_NAMES = ["rev", "utf8", "long", "blank"] + sorted(NUMERIC_IDS) + ["u2-%d" % j for j in range(16)] + ["u3-%d" % j for j in range(16)]
 
 
 def idmap(name, tmpl):
